@@ -69,7 +69,7 @@ def repo_sources():
 VARIANTS = {
     # name: (cc, flags)
     "plain": ("gcc", "-O1 -g -std=gnu11 -fsigned-char -fPIC -Wno-abi -w"),
-    "ndebug": ("gcc", "-O2 -g -DNDEBUG -std=gnu11 -fsigned-char -fPIC -Wno-abi -w"),
+    "o2": ("gcc", "-O2 -g -std=gnu11 -fsigned-char -fPIC -Wno-abi -w"),
     "asan": ("clang", "-O1 -g -std=gnu11 -fsigned-char -fPIC -w -fsanitize=address,undefined "
                       "-fno-sanitize=alignment,shift,signed-integer-overflow,function -fno-omit-frame-pointer"),
     "tsan": ("clang", "-O1 -g -std=gnu11 -fsigned-char -fPIC -w -fsanitize=thread"),
@@ -82,7 +82,9 @@ def build_lib(variant="plain", units=("mir.c", "mir-gen.c"), extra_flags=""):
     """Compile library units from the current /repo working tree with -DMIR_VERIF.
     Returns (dir, [object files], cc, flags). Cached by hash of sources+flags."""
     cc, flags = VARIANTS[variant]
-    flags = flags + " -D%s -DMIR_PARALLEL_GEN -I%s %s" % (GUARD, REPO, extra_flags)
+    # NDEBUG as in the baseline build (RelWithDebInfo): with assertions enabled the pinned tree aborts on
+    # mir-tests/test11.mir (try_spilled_reg_mem: n < 2), so assertion builds would alarm on the unchanged tree
+    flags = flags + " -DNDEBUG -D%s -DMIR_PARALLEL_GEN -I%s %s" % (GUARD, REPO, extra_flags)
     hs = tree_hash(repo_sources())
     key = hashlib.sha256((hs + cc + flags).encode()).hexdigest()[:12]
     rtag = hashlib.md5(os.path.abspath(REPO).encode()).hexdigest()[:4]
